@@ -47,5 +47,9 @@ REGISTRY = {
                     "nested enums, multiple and aliased superclasses, private declarations); the 2.1k modules are concretised into one package, run, and C12_Trace judges the JSON per module: validity, sortedness, "
                     "duplicates, id form, dangling references, one owner, completeness against ExpectedInventory, flags and superclass lists.",
             "ref": "DESIGN.md section 7 C12", "note": BASE_NOTE + " Known finding: enums nested in classes.", "technique": TECH},
+    "C17": {"text": "spec/Inherit.tla defines private-ancestor sets, distances, required/allowed members and winners (nearest definer or Python's resolution order) and models the generator's "
+                    "inlining walk with the carried set of defined names; TLC checks once/all/precedence for every legal hierarchy of 3 classes (public/private, ordered base lists, method subsets, optionally "
+                    "split over two modules) and for 4-class diamonds; the 2.8k hierarchies are run and C17_Trace judges member multiplicity, winning definition, sub clause (no private names, public bases in order) and imports.",
+            "ref": "DESIGN.md section 7 C17", "note": BASE_NOTE + " Known finding: private diamonds are inlined depth first.", "technique": TECH},
 }
 NOT_APPLICABLE = {}
